@@ -608,7 +608,7 @@ def rx_multibyte(toks):
     return any(t in ("e2", "c3") for t in toks)
 
 
-RX_SLICE = 480          # patterns run, judged and forgotten together (bounds the memory of the thorough tier)
+RX_SLICE_TRIPLES = 160000          # pattern x mode x subject triples run, judged and forgotten together (bounds the memory of the thorough tier)
 RX_CALL_CORRUPTIONS = ["gsub-first-only", "capture-off-by-one", "strmatchx-index-shifted", "case-flag-ignored", "regextract-not-absent"]
 RX_PROG_CORRUPTIONS = ["record-lost", "captures-kept-after-failed-match", "second-use-cached"]
 
@@ -712,6 +712,7 @@ def rx_section(tier, seed, V, cov_all):
     want = {n: None for n in RX_CALL_CORRUPTIONS}
     tot = {"states": 0, "nsub": 0, "evaluations": 0, "processes": 0, "bad": 0}
     order = list(range(len(pats)))
+    RX_SLICE = max(40, RX_SLICE_TRIPLES // (2 * max(len(v) for v in subjects.values())))
     for k in range(0, len(order), RX_SLICE):
         st = rx_call_slice(mlr, pats, order[k:k + RX_SLICE], subjects, ra, jobsn, V, want)
         for f in tot:
